@@ -2957,6 +2957,15 @@ func getGlobalRefs(root *node, sc *scope) *globalRefs {
 		if n.anc.kind == selectorExpr && childPos(n) == 1 {
 			return false
 		}
+		if n.anc.kind == keyValueExpr && childPos(n) == 0 && n.anc.typ != nil && isStruct(n.anc.typ) {
+			// A field name in a struct literal is not a reference to the
+			// global variable of the same name.
+			return false
+		}
+		if n.anc.kind == fieldExpr && len(n.anc.child) > 1 && childPos(n) == 0 {
+			// Neither is the name of a field or parameter in a type expression.
+			return false
+		}
 		sym := n.sym
 		if sym == nil && sc != nil {
 			sym, _, _ = sc.lookup(n.ident)
